@@ -112,7 +112,12 @@ def run(ctx):
                       'handler `%s` returns to the loop head' % n.text(), key=('V1', 'handler', n.text()),
                       site=ctx.site(ml, n.ast))
 
+    common.parse_errors_propagate(ctx, 'V4')
     # ---------------------------------------------------------------- V2
+    # a DELETED entry leaves the table only after its kernel SAs were removed: that removal must not be able to fail on an SA
+    # the kernel has already dropped, or the dead entry raises again on every later iteration
+    from .c10 import kernel_teardown
+    kernel_teardown(ctx, esc, 'V4')
     lp = Loops(prog, res, esc)
     results, quals = lp.check_reach([ml])
     for q in quals:
